@@ -66,6 +66,34 @@ type Database struct {
 	header      *header
 	btreeCache  *btreeCache // table and index page cache
 	objectCache *objectCache
+	// interior pages seen by the b-tree walks in progress (a lookup made
+	// from the callback of a scan is a walk of its own)
+	walks []map[int]struct{}
+}
+
+// beginWalk starts a walk of a b-tree, call the result when done. In a tree
+// every page has a single parent: an interior page that is reached a second
+// time during one walk means that pages share a child. No page is its own
+// ancestor then, so the depth limit doesn't help, but the walk would visit
+// that child once per reference: fan-out ^ depth visits from a small file.
+func (db *Database) beginWalk() func() {
+	db.walks = append(db.walks, map[int]struct{}{})
+	return func() {
+		db.walks = db.walks[:len(db.walks)-1]
+	}
+}
+
+// visitInterior notes an interior page for the current walk, if any.
+func (db *Database) visitInterior(page int) error {
+	if len(db.walks) == 0 {
+		return nil
+	}
+	seen := db.walks[len(db.walks)-1]
+	if _, ok := seen[page]; ok {
+		return ErrRecursion
+	}
+	seen[page] = struct{}{}
+	return nil
 }
 
 // OpenFile opens a .sqlite file. This is the main entry point.
@@ -297,6 +325,7 @@ func (db *Database) master() ([]sqliteMaster, error) {
 		return o.objects, o.err
 	}
 
+	defer db.beginWalk()()
 	master, err := db.openTable(1)
 	if err != nil {
 		return nil, err
@@ -387,6 +416,11 @@ func (db *Database) openTable(page int) (tableBtree, error) {
 	if !ok {
 		return nil, errors.New("found an index, expected a table")
 	}
+	if _, ok := tb.(*tableInterior); ok {
+		if err := db.visitInterior(page); err != nil {
+			return nil, err
+		}
+	}
 	return tb, nil
 }
 
@@ -398,6 +432,11 @@ func (db *Database) openIndex(page int) (indexBtree, error) {
 	tb, ok := p.(indexBtree)
 	if !ok {
 		return nil, errors.New("found a table, expected an index")
+	}
+	if _, ok := tb.(*indexInterior); ok {
+		if err := db.visitInterior(page); err != nil {
+			return nil, err
+		}
 	}
 	return tb, nil
 }
